@@ -267,6 +267,15 @@ def pmap(func: Callable[[Any], Any], items: list, jobs: int = 0, chunksize: int 
             yield _check_err(_call(it))
         return
     ctx = mp.get_context("fork")
+    user_init = init
+
+    def init() -> None:  # type: ignore[no-redef]
+        # `kill -USR1 <worker pid>` prints the worker's Python stack (diagnosing slow cases)
+        import faulthandler
+        faulthandler.register(signal.SIGUSR1, all_threads=False)
+        if user_init:
+            user_init()
+
     # fresh=True: every item runs in a process newly forked from this one (items that mutate
     # process-global state must not see each other)
     with ctx.Pool(jobs, initializer=init, maxtasksperchild=1 if fresh else None) as pool:
